@@ -5,6 +5,7 @@
 //!   check --worker ...                   (internal) worker process
 //!   check --list                         list registered checks
 
+mod big;
 mod case;
 mod checks;
 mod cli;
@@ -48,7 +49,7 @@ fn real_main(args: &[String]) -> i32 {
             None => return 2,
         };
         // address-space cap: a runaway allocation kills the worker, not the machine
-        let cap_gb: u64 = opt(args, "--rlimit-gb").and_then(|s| s.parse().ok()).unwrap_or(6);
+        let cap_gb: u64 = opt(args, "--rlimit-gb").and_then(|s| s.parse().ok()).unwrap_or(2);
         driver::set_rlimit_as(cap_gb << 30);
         let a = driver::WorkerArgs {
             id: args[2].clone(),
@@ -60,6 +61,7 @@ fn real_main(args: &[String]) -> i32 {
             only_scenario: opt(args, "--only-scenario").map(|s| s.to_string()),
             only_run: opt(args, "--only-run").and_then(|s| s.parse().ok()),
             only_first: opt(args, "--only-first").and_then(|s| s.parse().ok()),
+            skip_slow: opt(args, "--skip-slow").is_some(),
             resume: opt(args, "--resume").and_then(|s| s.split_once(',').and_then(|(a, b)| b.parse().ok().map(|n| (a.to_string(), n)))),
             trace_first: opt(args, "--trace-first").and_then(|s| s.parse().ok()).unwrap_or(0),
             watchdog_secs: opt(args, "--watchdog").and_then(|s| s.parse().ok()).unwrap_or(10),
